@@ -214,6 +214,26 @@ def full_jobs(ctx, n, extra=None, **kw):
     return jobs
 
 
+def session_jobs(ctx):
+    """Directed sessions: the same calibration objects run twice, with every kind of declared
+    parameter (scalar / vector, linear / logarithmic, shared / per-component boundaries)."""
+    import copy
+    base = full_jobs(ctx, 1)[0]
+    layouts = [
+        [{"arity": 2, "log": True, "lo": [1, 2], "hi": [2, 3]}, {"arity": 1, "log": False, "lo": [0], "hi": [3]}],
+        [{"arity": 3, "log": True, "lo": [0, 0, 0], "hi": [2, 2, 2]}],
+        [{"arity": 1, "log": True, "lo": [1], "hi": [3]}, {"arity": 2, "log": False, "lo": [0, 2], "hi": [1, 5]}],
+        [{"arity": 2, "log": True, "lo": [-2, 1], "hi": [-1, 2]}],
+    ]
+    jobs = []
+    for k, vars_ in enumerate(layouts[:ctx.pick(2, 4)]):
+        j = copy.deepcopy(base)
+        j["kcfg"]["vars"] = vars_
+        j.update({"variant": 50 + k, "repeat": 2, "islands": 1, "algo": "sade"})
+        jobs.append(j)
+    return jobs
+
+
 def check_dispatch(ctx):
     """C01 in calibration mode: every fitness evaluation runs the pipeline exactly once per
     target/input pair."""
